@@ -44,19 +44,22 @@ CLAIMS = {
         "note": "K8 (prefix look-alike of a value-less tag taken for the tag) was found by this check and repaired by a fix: commit.",
     },
     "C03": {
-        "technique": "Lean 4 proof (writer and parser key sets refine one specification and are therefore equal after every written key line; text-level reduction of to_string/try_from to the typed-line state machine; counterexample theorems for the recorded findings) + exhaustive key/map/segment histories through try_from -> to_string -> try_from -> to_string on library and model",
-        "text": ("Proof (Lean 4, Props/C03.lean): writer_refines - the writer's handling of one segment key moves its 'already announced' set along the RFC key "
-                 "specification (C06.KeySpec) for the IV-stripped key and emits either nothing (key already in effect) or exactly that key line; key_lines_mirror - "
-                 "hence, for every announced set and every key, the parser's keys in effect after the emitted lines EQUAL the writer's set (both are sorted "
-                 "duplicate-free listings of the same specification state: C11.listing_canonical + C06.abs_step); media_text_reduction - to_string() followed by "
-                 "try_from equals the typed-line state machine on the written lines (Proofs/Render.lean, under LineRT per line); k2_counterexample, "
-                 "k3_counterexample - the two recorded histories on which the full statement is false, with control_roundtrip as their repaired shape. "
-                 "PARTIAL: the assembly of these pieces into 'for every parsed playlist free of the K2/K3/K4 shapes, write -> parse returns the same value' over "
-                 "typed lines is stated in DESIGN.md section 7 (C03) with its proof status; what is not yet proved in Lean is covered by the run. Tie + oracle: "
-                 "EVERY key/map/segment event sequence over an 11-letter alphabet up to the length bound, long random histories with IV/KEYFORMATVERSIONS, "
-                 "generated playlists with all 17 tags and the fixtures, through try_from -> to_string -> try_from -> to_string on library and model; status, "
-                 "observation (numbers, URIs, durations, titles, ranges, flags, date ranges, maps, per-segment keys, map coverage, effective IVs, unknown tags), "
-                 "R and F must agree; on the library R must be '=' and F '1' except on the recorded findings K2, K3, K4, which the model reproduces exactly."),
+        "technique": "Lean 4 proof (for every parser-producible media playlist free of two recorded shapes, the parser's state machine run on the writer's typed lines returns exactly the same value; writer and parser key sets refine one specification; text level through the line-splitter lemmas) + exhaustive key/map/segment histories through try_from -> to_string -> try_from -> to_string on library and model",
+        "text": ("Proof (Lean 4, Props/C03.lean with Proofs/KeyMirror.lean, Proofs/MediaRT.lean, Proofs/Render.lean): media_write_parse - for EVERY media playlist value "
+                 "the parser can produce from any classified line list (entry points try_from / from_str / builder().allowable_excess_duration(e).parse), with "
+                 "keys that text can express (text_lines_noNum proves this for every text) and free of the shapes NoK2 / NoK3, the writer produces lines and the "
+                 "parser's state machine on those lines returns exactly the same value: playlist-level values, segments, numbers, URIs, durations, titles, resolved "
+                 "byte ranges, flags, date ranges, maps with their key coverage, per-segment keys with their effective IVs, unknown tags. The proof walks the writer's "
+                 "and the parser's state in lockstep: key_mirror / writer_refines (after the lines emitted for a key, parser keys in effect = writer's announced set, "
+                 "both refine C06.KeySpec), abs_after (the key history condition), segment_lines (one segment through C01.segment_faithful), segments_loop, "
+                 "built_reparsed + validOf_transfer (build() on the re-parsed segments gives the same segments and passes validation), hdr_builder. "
+                 "media_roundtrip / media_fixed_point - the same through to_string() and the text parser, and byte-identical second serialisation, under the "
+                 "per-line hypothesis LineRT (each written line's text classifies back to that line; per-tag status in DESIGN.md). k2_counterexample, "
+                 "k3_counterexample - the statement without NoK2 / NoK3 is false (recorded findings); control_roundtrip - non-vacuity. K4 violates LineRT for a key "
+                 "line with a default version list. Tie + oracle: EVERY key/map/segment event sequence over an 11-letter alphabet up to the length bound, long "
+                 "random histories with IV/KEYFORMATVERSIONS, generated playlists with all 17 tags and the fixtures, through try_from -> to_string -> try_from -> "
+                 "to_string on library and model; status, observation, D, R and F must agree; on the library R must be '=' and F '1' except on K2, K3, K4, which "
+                 "the model reproduces exactly."),
         "design_ref": "DESIGN.md §7 C03",
         "note": "Known findings K2 (key between MAP and URI), K3 (reset followed by fewer key formats) and K4 (default KEYFORMATVERSIONS) are reported as KNOWN-FINDING.",
     },
